@@ -21,6 +21,7 @@ EXTENDS Naturals, Integers, Sequences, FiniteSets, TLC
 
 E == 0          \* empty cell
 S == 9          \* empty cell that carries a style (matters for rstrip only)
+K == 10         \* a cell WITHOUT a value that is not empty: text with no value type (as other producers write), never stripped
 
 Max(a, b) == IF a >= b THEN a ELSE b
 Min(a, b) == IF a <= b THEN a ELSE b
@@ -203,7 +204,7 @@ Area(t, x, y, z, tt) ==
 (* every read the harness takes after a step, as one record.  Reads that    *)
 (* return VALUES do not see the style of an empty cell (V); reads that      *)
 (* return cell objects do.                                                  *)
-V(c) == IF c = S THEN E ELSE c
+V(c) == IF c \in {S, K} THEN E ELSE c
 VSeq(s) == [i \in 1..Len(s) |-> V(s[i])]
 Reads(t) ==
     [size     |-> Size(t),
